@@ -146,6 +146,93 @@ pub fn unbounded(sink: &mut Sink, cfg: &str) {
     }
 }
 
+/// decimal digits (most significant first) of 2^n
+fn dec_pow2(n: usize) -> Vec<u8> {
+    let mut d: Vec<u8> = vec![1];                       // least significant first
+    for _ in 0..n { let mut c = 0u8; for x in d.iter_mut() { let v = *x * 2 + c; *x = v % 10; c = v / 10; } if c > 0 { d.push(c); } }
+    d.reverse(); d
+}
+/// a - b on decimal digit vectors (most significant first), a >= b
+fn dec_sub(a: &[u8], b: &[u8]) -> Vec<u8> {
+    let mut a: Vec<u8> = a.iter().rev().cloned().collect(); let b: Vec<u8> = b.iter().rev().cloned().collect();
+    let mut borrow = 0i16;
+    for i in 0..a.len() { let mut v = a[i] as i16 - borrow - if i < b.len() { b[i] as i16 } else { 0 }; if v < 0 { v += 10; borrow = 1; } else { borrow = 0; } a[i] = v as u8; }
+    while a.len() > 1 && *a.last().unwrap() == 0 { a.pop(); }
+    a.reverse(); a
+}
+fn dec_add(a: &[u8], b: &[u8]) -> Vec<u8> {
+    let a: Vec<u8> = a.iter().rev().cloned().collect(); let b: Vec<u8> = b.iter().rev().cloned().collect();
+    let mut o = vec![]; let mut c = 0u8;
+    for i in 0..a.len().max(b.len()) { let v = c + if i < a.len() { a[i] } else { 0 } + if i < b.len() { b[i] } else { 0 }; o.push(v % 10); c = v / 10; }
+    if c > 0 { o.push(c); }
+    o.reverse(); o
+}
+fn dec_str(d: &[u8]) -> String { d.iter().map(|x| (b'0' + x) as char).collect() }
+
+/// C01 number range (tag `range-band`): literals in and around the band of 2 ulp either side of the rounding threshold
+/// 2^1024 - 2^970 (where the default build's answer is not determined by the value: finding C01-default-range-band), in
+/// several spellings (digit counts 17..25, decimal point anywhere, leading `0.000`, `e`/`E`/`e+`, 309-digit integers,
+/// digits beyond u64) and nesting positions (top level, array element, nested, object value, after other members).
+pub fn range_band(sink: &mut Sink, cfg: &str, r: &mut Rng, thorough: bool) {
+    let mut lits: Vec<String> = vec![];
+    for l in ["17976931348623156225e289", "1.7976931348623158e308", "179769313486231591e291", "1.7976931348623157e308", "1.7976931348623159e308",
+              "17976931348623158e292", "17976931348623157e292", "179769313486231580793e288", "179769313486231580794e288", "1797693134862315807e290",
+              "1797693134862315708e290", "1.797693134862315907729e308", "1.797693134862315907730e308", "0.00017976931348623158e312",
+              "1797693134862315.8E293", "1.7976931348623158e+308", "17976931348623158000e289", "1.79769313486231580e308", "1e308", "1e309",
+              "1.7976931348623155e308", "1.7976931348623161e308", "1.7976931348623163e308", "1.7976931348623164e308", "1.7976931348623153e308",
+              "2e308", "9e307", "18e307", "0.18e309"] { lits.push(l.to_string()); }
+    // exact integers: T = 2^1024 - 2^970 (the threshold: not finite), T-1 (finite), f64::MAX, MAX+1, 2^1024, 2^1024-1, the band's ends
+    let p1024 = dec_pow2(1024); let p970 = dec_pow2(970); let p971 = dec_pow2(971); let p972 = dec_pow2(972); let p965 = dec_pow2(965);
+    let t = dec_sub(&p1024, &p970); let one = vec![1u8];
+    let max = dec_sub(&p1024, &p971);
+    let lo = dec_sub(&t, &p972); let hi = dec_add(&dec_add(&p1024, &p972), &p965);
+    for v in [t.clone(), dec_sub(&t, &one), dec_add(&t, &one), max.clone(), dec_add(&max, &one), p1024.clone(), dec_sub(&p1024, &one), dec_add(&p1024, &one),
+              lo.clone(), dec_sub(&lo, &one), hi.clone(), dec_sub(&hi, &one)] {
+        let d = dec_str(&v);
+        lits.push(d.clone());
+        lits.push(format!("{}.0", d));
+        lits.push(format!("{}.{}e{}", &d[..1], &d[1..], d.len() - 1));
+        lits.push(format!("{}e-5", format!("{}00000", d)));
+    }
+    // random mantissas 1.79769313486231[4-6]…e308 with 17..25 digits, the point anywhere
+    let n = if thorough { 3000 } else { 300 };
+    for _ in 0..n {
+        let k = 17 + r.below(9);
+        let mut d = String::from("179769313486231");
+        d.push(*r.pick(&['4', '5', '5', '5', '6', '6']));
+        while d.len() < k { d.push((b'0' + r.below(10) as u8) as char); }
+        let exp = 308isize - (k as isize - 1);
+        let e = *r.pick(&["e", "E", "e+"]);
+        let lit = match r.below(4) {
+            0 => format!("{}{}{}", d, e, exp),
+            1 => { let j = 1 + r.below(k - 1); format!("{}.{}{}{}", &d[..j], &d[j..], e, exp + (k - j) as isize) }
+            2 => { let z = r.below(4); format!("0.{}{}{}{}", "0".repeat(z), d, e, exp + (k + z) as isize) }
+            _ => { let z = 1 + r.below(6); format!("{}{}{}{}", d, "0".repeat(z), e, exp - z as isize) }
+        };
+        lits.push(lit);
+    }
+    for (i, l) in lits.iter().enumerate() {
+        let l = if r.chance(1, 3) { format!("-{}", l) } else { l.clone() };
+        let doc = match i % 6 {
+            0 => l.clone(),
+            1 => format!("[{}]", l),
+            2 => format!("[[1,{}],2]", l),
+            3 => format!("{{\"a\":{}}}", l),
+            4 => format!(" {{\"a\":1, \"b\":[true, {} ]}} ", l),
+            _ => format!("[1e308,{},-0.0]", l),
+        };
+        emit(sink, cfg, doc.as_bytes(), r, "range-band");
+        if i % 6 != 0 && r.chance(1, 4) { emit(sink, cfg, l.as_bytes(), r, "range-band"); }
+    }
+    // the other end of the range: exponents below -308 (f64_from_parts leaves the POW10 table), subnormals, underflow to zero
+    for (i, l) in ["268e-309", "-268e-309", "1e-310", "2.5e-320", "123456789e-325", "5e-324", "-1.5e-315", "2.2250738585072014e-308", "1e-400", "-1e-400",
+                   "17976931348623157e-340", "0.000001e-305", "12345678901234567890e-330", "2.4703282292062327e-324", "2.4703282292062329e-324",
+                   "9e-617", "1e-616", "7e-310", "0.5e-308", "49e-325"].iter().enumerate() {
+        let doc = match i % 4 { 0 => l.to_string(), 1 => format!("[{}]", l), 2 => format!("{{\"a\":[0,{}]}}", l), _ => format!("[1e-5,{} ,1]", l) };
+        emit(sink, cfg, doc.as_bytes(), r, "range-tiny");
+    }
+}
+
 /// Objects keyed by the private tokens (`number::TOKEN`, `raw::TOKEN`): as first key (the crate reads the object as a
 /// Number / RawValue), as a later key (an ordinary object), duplicated, spelled with escapes; every kind of value behind
 /// it; more members after it; whitespace and newlines around every token (line/column); nested at depth 126–128;
@@ -392,6 +479,7 @@ pub fn run(sink: &mut Sink, prop: &str, thorough: bool, seed: u64) {
     if (prop == "C01" || prop == "C02" || (prop == "C09" && thorough)) && cfg!(feature = "rv") {
         raw_tokens(sink, &cfg, &mut r, thorough);
     }
+    if prop == "C01" || prop == "C02" { range_band(sink, &cfg, &mut r, thorough); }
     let toks = tokens();
     let n = if thorough { 4 } else { 3 };
     emit(sink, &cfg, b"", &mut r, "exh0");
